@@ -51,7 +51,7 @@ def norm_model(line: str) -> Tuple[str, str, str]:
     return out, valid.split("=")[1], exists.split("=")[1]
 
 
-def explore(ctx: Ctx, want_live: bool = True) -> List[dict]:
+def explore(ctx: Ctx, want_live: bool = True, structure: bool = True) -> List[dict]:
     """Runs R-req and returns one record per request: scenario, path, impl outcome, model outcome, impl/model mask, flags."""
     reg = registry()
     rng = ctx.rng.fork("req")
@@ -66,12 +66,21 @@ def explore(ctx: Ctx, want_live: bool = True) -> List[dict]:
             continue
         sim = game.simulation
         rounds = ctx.scale(2, 4)
+        history: List[Any] = []
         for rnd in range(rounds):
             vocab = rig._vocab(sim)
             if rnd:
-                rig.perturb(rng, sim, reg, vocab, steps=ctx.scale(10, 25))
+                history += rig.perturb(rng, sim, reg, vocab, steps=ctx.scale(10, 25))
                 vocab = rig._vocab(sim)
             rm = sim._request_manager
+            restored = {(q[2], q[6], q[7]) for q in history if len(q) >= 8 and q[3:6] == ["file_system", "restore", "file"]}
+            for mm in (rig.structure_mismatches(sim) if structure else []):
+                sig = {"kind": "request-tree-disagrees-with-object-graph", "what": mm["kind"], "level": mm.get("level")}
+                if mm.get("level") == "file":
+                    node_folder = mm["where"].split(":")
+                    sig["after_restore_of_that_file"] = (node_folder[0], node_folder[1], mm["key"]) in restored
+                ctx.violation(sig, f"{name} round {rnd}: {mm}", {"scenario": name, "round": rnd, "mismatch": mm, "history": history})
+            ctx.count("structure-oracle-runs")
             snap = rig.Snap(rm)
             lines.append("tree " + " ".join(snap.tokens))
             records.append({"kind": "tree", "scenario": name, "round": rnd, "edges": snap.n_edges})
@@ -153,6 +162,10 @@ def judge(ctx: Ctx, records: List[dict]):
             elif not r["impl"].startswith("reached") and not r["unchanged"]:
                 ctx.violation({"kind": "refused-request-changed-state", "action": k.split(":", 2)[2]},
                               f"refused request {r['req']} ({r['impl']}) changed describe_state()", {"scenario": r["scenario"], "req": r["req"]})
+            elif r["exists"] is False and r["status"] == "success":
+                ctx.violation({"kind": "success-on-missing-component", "action": k.split(":", 2)[2]},
+                              f"request {r['req']} addresses a component that does not exist but was answered success",
+                              {"scenario": r["scenario"], "req": r["req"]})
             elif not r["impl"].startswith("reached") and r["status"] == "success":
                 ctx.violation({"kind": "refused-but-success", "action": k.split(":", 2)[2]}, f"{r['req']} refused yet success", {"req": r["req"]})
             continue
